@@ -75,8 +75,10 @@ type GhostVar struct {
 
 // AtCall: ghost update performed right after the n-th call (source order) of a callee whose name ends with Callee
 type AtCall struct {
-	Optional bool // the anchor may be absent (no such call): the update is then skipped
-	Assume   bool // assumed (unchecked, reported) instead of proved
+	AtReturn bool  // executed right before every return of the function
+	LHS      *Spec // ghost variable, ghost field x.f or ghost array element x.f[i]
+	Optional bool  // the anchor may be absent (no such call): the update is then skipped
+	Assume   bool  // assumed (unchecked, reported) instead of proved
 	Text     string
 	Hint     bool // proved (then assumed) right before the call instead of a ghost update after it
 	Props    []string
@@ -111,8 +113,9 @@ type GhostField struct{ Type, Field, Sort string }
 
 var reClause = regexp.MustCompile(`^(requires|ensures|modifies|decreases|trusted|nilable|hint|assume|preserves|unreachable-returns|opaque|exit|apply)(\[[A-Z0-9,]+\])?\s*(.*)$`)
 var reLoop = regexp.MustCompile(`^loop\s+(\d+)\s+(invariant|decreases|modifies|hint|apply)(\[[A-Z0-9,]+\])?\s+(.*)$`)
-var reGhostVar = regexp.MustCompile(`^ghost\s+var\s+([A-Za-z_][A-Za-z0-9_]*)\s+(int|bool)\s*=\s*(.*)$`)
-var reAtCall = regexp.MustCompile(`^at\s+call\??\s+([A-Za-z0-9_./()*]+)#(\d+)\s+ghost\s+([A-Za-z_][A-Za-z0-9_]*)\s*:=\s*(.*)$`)
+var reGhostVar = regexp.MustCompile(`^ghost\s+var\s+([A-Za-z_][A-Za-z0-9_]*)\s+(int|bool|\[int\]int|\[int\]bool)\s*=\s*(.*)$`)
+var reAtCall = regexp.MustCompile(`^at\s+call\??\s+([A-Za-z0-9_./()*]+)#(\d+)\s+ghost\s+([A-Za-z_][A-Za-z0-9_.\[\]+\-* ()]*?)\s*:=\s*(.*)$`)
+var reAtReturn = regexp.MustCompile(`^at\s+return\s+ghost\s+([A-Za-z_][A-Za-z0-9_.\[\]+\-* ()]*?)\s*:=\s*(.*)$`)
 var reAtCallHint = regexp.MustCompile(`^at\s+call\s+([A-Za-z0-9_./()*]+)#(\d+)\s+(?:hint|assume)(\[[A-Z0-9,]+\])?\s+(.*)$`)
 var rePure = regexp.MustCompile(`^(?:pure|arith)\s+([A-Za-z_][A-Za-z0-9_]*)\s*\(([^)]*)\)\s*:\s*([A-Za-z0-9_\[\]\*\.]+)\s*=\s*(.*)$`)
 var reGhost = regexp.MustCompile(`^ghost\s+field\s+([A-Za-z_][A-Za-z0-9_]*)\.([A-Za-z_][A-Za-z0-9_]*)\s*:\s*(.*)$`)
@@ -255,7 +258,23 @@ func parseContractFile(path string) (*ContractFile, error) {
 				if err != nil {
 					return nil, fail(err)
 				}
-				cur.AtCalls = append(cur.AtCalls, AtCall{Callee: m[1], N: n, Var: m[3], Expr: e, Line: l.line, Optional: strings.HasPrefix(t, "at call?")})
+				lhs, err := parseSpec(m[3])
+				if err != nil {
+					return nil, fail(err)
+				}
+				cur.AtCalls = append(cur.AtCalls, AtCall{Callee: m[1], N: n, Var: m[3], LHS: lhs, Expr: e, Line: l.line, Optional: strings.HasPrefix(t, "at call?")})
+				continue
+			}
+			if m := reAtReturn.FindStringSubmatch(t); m != nil {
+				e, err := parseSpec(m[2])
+				if err != nil {
+					return nil, fail(err)
+				}
+				lhs, err := parseSpec(m[1])
+				if err != nil {
+					return nil, fail(err)
+				}
+				cur.AtCalls = append(cur.AtCalls, AtCall{AtReturn: true, Var: m[1], LHS: lhs, Expr: e, Line: l.line})
 				continue
 			}
 			if m := reLoop.FindStringSubmatch(t); m != nil {
@@ -704,8 +723,13 @@ func splitConj(e *Spec) []*Spec {
 }
 
 func ghostSortName(s string) string {
-	if s == "bool" {
+	switch s {
+	case "bool":
 		return "Bool"
+	case "[int]int":
+		return "(Array Int Int)"
+	case "[int]bool":
+		return "(Array Int Bool)"
 	}
 	return "Int"
 }
